@@ -280,6 +280,25 @@ pub fn password_algorithms_value(algs: &[u16]) -> Vec<u8> {
     v
 }
 
+/// entries with parameter bytes (padded to 32 bits except after the last one)
+pub fn password_algorithms_value_p(algs: &[(u16, Vec<u8>)]) -> Vec<u8> {
+    let mut v = Vec::new();
+    for (i, (a, p)) in algs.iter().enumerate() {
+        v.extend_from_slice(&a.to_be_bytes());
+        v.extend_from_slice(&(p.len() as u16).to_be_bytes());
+        v.extend_from_slice(p);
+        if i + 1 < algs.len() {
+            v.extend(std::iter::repeat(0u8).take(pad(p.len())));
+        }
+    }
+    v
+}
+
+/// a small number standing for parameter bytes in descriptors (0 = no parameters)
+pub fn params_code(p: &[u8]) -> u64 {
+    if p.is_empty() { 0 } else { 1 + (hash31(p) as u64 % 1_000_000) }
+}
+
 pub fn parse_password_algorithms(v: &[u8]) -> Option<Vec<(u16, Vec<u8>)>> {
     let mut out = Vec::new();
     let mut pos = 0;
